@@ -56,6 +56,8 @@ pub enum ObjStmFilter {
     Hex,
     A85Flate,
     Lzw,
+    /// [/ASCIIHexDecode /FlateDecode] with /DecodeParms [null << /Predictor 12 /Columns 8 >>]
+    HexFlatePredictor,
 }
 impl Default for ObjStmOpts {
     fn default() -> Self {
@@ -179,6 +181,7 @@ impl<'a> FileBuilder<'a> {
         let first = header.len();
         let mut data = header;
         data.extend_from_slice(&bodies);
+        let mut predictor_parms: Option<Val> = None;
         let (enc, filter): (Vec<u8>, Option<Val>) = match opts.filter {
             ObjStmFilter::None => (data, None),
             ObjStmFilter::Flate => (pf::flate_encode(&data, pf::FlateStyle::ZlibDefault), Some(Val::name("FlateDecode"))),
@@ -188,10 +191,22 @@ impl<'a> FileBuilder<'a> {
                 Some(Val::Array(vec![Val::name("ASCII85Decode"), Val::name("FlateDecode")])),
             ),
             ObjStmFilter::Lzw => (pf::lzw_encode(&data, true, 0), Some(Val::name("LZWDecode"))),
+            ObjStmFilter::HexFlatePredictor => {
+                // rows of 8 bytes: the data is padded with white-space (which may follow the last member)
+                while data.len() % 8 != 0 {
+                    data.push(b' ');
+                }
+                predictor_parms = Some(Val::Array(vec![Val::Null, Val::dict(vec![("Predictor", Val::Int(12)), ("Columns", Val::Int(8))])]));
+                let predicted = pf::png_predict(&data, 1, 8, 8, |_| 2);
+                (pf::hex_encode(&pf::flate_encode(&predicted, pf::FlateStyle::ZlibDefault), pf::HexStyle::Upper, true), Some(Val::Array(vec![Val::name("ASCIIHexDecode"), Val::name("FlateDecode")])))
+            }
         };
         let mut d = vec![("Type", Val::name("ObjStm")), ("N", Val::Int(members.len() as i64)), ("First", Val::Int(first as i64))];
         if let Some(f) = filter {
             d.push(("Filter", f));
+        }
+        if let Some(p) = predictor_parms {
+            d.push(("DecodeParms", p));
         }
         if let Some(e) = opts.extends {
             d.push(("Extends", Val::r(e)));
